@@ -225,7 +225,15 @@ pub fn possible_types(schema: &SchemaDoc, ty: &str) -> Vec<String> {
         "INTERFACE" => schema
             .defs
             .iter()
-            .filter_map(|d| if let TypeDef::Object { name, implements, .. } = d { if implements.iter().any(|i| i == ty) { Some(name.clone()) } else { None } } else { None })
+            .filter_map(|d| {
+                if let TypeDef::Object { name, implements, .. } = d {
+                    // declared on the type itself or by one of its `extend type` blocks
+                    let by_ext = schema.defs.iter().any(|e| matches!(e, TypeDef::Extend { name: en, implements: ei, .. } if en == name && ei.iter().any(|i| i == ty)));
+                    if implements.iter().any(|i| i == ty) || by_ext { Some(name.clone()) } else { None }
+                } else {
+                    None
+                }
+            })
             .collect(),
         _ => vec![],
     }
